@@ -269,7 +269,7 @@ class Packet:
         that may be used as an identifier for the packet.
         """
         ret = [pack("<HBBiHHHH", (self.size-2) | 0x1000, 0, 0,
-                    index, 0x8002, 0, ethertype, 0)]
+                    index, 2 | (bool(self.data) << 15), 0, ethertype, 0)]
         for i, (cmd, data, wkc, *dgram) in enumerate(self.data, start=1):
             ret.append(pack("<BBhHHH" if len(dgram) == 3 else "<BBiHH",
                             cmd.value, *dgram,
